@@ -8,7 +8,11 @@
 //!         "observed":..,"required":..} and a final {"kind":"summary","cases":N,"failing":K}.
 use std::panic;
 
+mod c04;
 mod c05;
+mod c07;
+mod c08;
+mod c14;
 mod c15;
 mod c17;
 mod c18;
@@ -55,7 +59,11 @@ fn main() {
     let mut ctx = Ctx { only, cases: 0, failing: 0 };
     panic::set_hook(Box::new(|_| {}));
     match args[1].as_str() {
+        "C04" => c04::run(&mut ctx),
         "C05" => c05::run(&mut ctx),
+        "C07" => c07::run(&mut ctx),
+        "C08" => c08::run(&mut ctx),
+        "C14" => c14::run(&mut ctx),
         "C15" => c15::run(&mut ctx),
         "C17" => c17::run(&mut ctx),
         "C18" => c18::run(&mut ctx),
